@@ -49,6 +49,44 @@ def _layout_generator(layout):
     return LayoutGenerator()
 
 
+def _injected_generator(cfg):
+    """INJ: the start states are the Init states of the TLC model (EVERY wall layout of the small grid, agent and target
+    on any two distinct free cells - connected or not), handed out by a table-driven generator: state number key[1]."""
+    import jax.numpy as jnp
+
+    from harness import inject
+    from jumanji.environments.routing.maze.generator import Generator
+    from jumanji.environments.routing.maze.types import Position, State
+
+    states, _ = inject.dump_states(cfg["inject"][0], cfg["inject"][1], limit=None)
+    seen = {}
+    for s in states:
+        if s["step_count"] != 0:
+            continue
+        seen.setdefault(repr((s["agent_position"], s["target_position"], s["walls"])), s)
+    init = [seen[k] for k in sorted(seen)]
+    if cfg.get("limit") and len(init) > cfg["limit"]:
+        init = init[:: max(1, len(init) // cfg["limit"])]
+    cfg["episodes"] = len(init)
+    rows, cols = len(init[0]["walls"]), len(init[0]["walls"][0])
+    assert (rows, cols) == (cfg["ctor"]["rows"], cfg["ctor"]["cols"])
+    walls = jnp.asarray(np.array([s["walls"] for s in init], dtype=bool))
+    pos = jnp.asarray(np.array([[s["agent_position"]["row"], s["agent_position"]["col"],
+                                 s["target_position"]["row"], s["target_position"]["col"]] for s in init], dtype=np.int32))
+
+    class InjectedGenerator(Generator):
+        def __init__(self):
+            super().__init__(num_rows=rows, num_cols=cols)
+
+        def __call__(self, key):
+            j = key[1] % walls.shape[0]
+            return State(agent_position=Position(row=pos[j, 0], col=pos[j, 1]),
+                         target_position=Position(row=pos[j, 2], col=pos[j, 3]),
+                         walls=walls[j], action_mask=None, key=key, step_count=jnp.array(0, jnp.int32))
+
+    return InjectedGenerator()
+
+
 def _c(cid, gen, rows=None, cols=None, tl=None, layout=None, **kw):
     ctor = dict(gen=gen, time_limit=tl)
     if rows is not None:
@@ -58,6 +96,7 @@ def _c(cid, gen, rows=None, cols=None, tl=None, layout=None, **kw):
     return dict(id=cid, ctor=ctor, **kw)
 
 
+INJ_PROPS = ["C03", "C04", "C05", "C07", "C09", "C10", "C12"]
 ALL_POL = ["survive", "seek", "random", "seek_noisy", "mostly_masked"]
 
 
@@ -91,6 +130,9 @@ class Adapter(EnvAdapter):
                    policies=["survive", "random", "seek_noisy", "seek"]),
                 _c("deadend_t7", "layout", tl=7, layout=DEADEND, episodes=4, max_steps=10,
                    policies=["survive", "seek", "random", "seek_noisy"]),
+                # INJ: every Init state of the 2x3 TLC model (all 64 wall layouts x agent/target placements), 4 probes each
+                _c("inj2x3_t2", "inject", 2, 3, 2, inject=("MC_Maze", "MC_Maze_quick.cfg"), max_steps=2, post_terminal=0,
+                   policies=["random"], props=INJ_PROPS),
             ]
         out = [_c("default10", "default", episodes=24, max_steps=104, policies=ALL_POL)]
         shapes = [(2, 2), (2, 3), (3, 2), (3, 3), (3, 7), (7, 3), (4, 5), (5, 5), (6, 9), (8, 8), (10, 10), (12, 9),
@@ -109,6 +151,10 @@ class Adapter(EnvAdapter):
             for tl in (2, 7, None):
                 out.append(_c(f"{nm}_t{'none' if tl is None else tl}", "layout", tl=tl, layout=lay, episodes=10,
                               max_steps=(tl or len(lay) * len(lay[0])) + 3, policies=ALL_POL))
+        out.append(_c("inj2x3_t2", "inject", 2, 3, 2, inject=("MC_Maze", "MC_Maze_quick.cfg"), max_steps=2, post_terminal=0,
+                      policies=["random"], props=INJ_PROPS))
+        out.append(_c("inj3x3_tnone", "inject", 3, 3, None, inject=("MC_Maze", "MC_Maze_thorough.cfg"), limit=6000, max_steps=1,
+                      post_terminal=0, policies=["random"], props=INJ_PROPS))
         seen = set()
         return [c for c in out if not (c["id"] in seen or seen.add(c["id"]))]
 
@@ -125,6 +171,8 @@ class Adapter(EnvAdapter):
             gen = RandomGenerator(num_rows=ct["rows"], num_cols=ct["cols"])
         elif g == "toy":
             gen = ToyGenerator()
+        elif g == "inject":
+            gen = _injected_generator(cfg)
         else:
             gen = _layout_generator(ct["layout"])
         return Maze(generator=gen, time_limit=ct["time_limit"])
@@ -143,7 +191,14 @@ class Adapter(EnvAdapter):
             rows, cols = ct["rows"], ct["cols"]
         tl = ct["time_limit"]
         return dict(num_rows=rows, num_cols=cols, time_limit_given=tl is not None, time_limit=0 if tl is None else tl,
-                    generator="random" if g == "default" else g)
+                    generator="random" if g == "default" else "layout" if g == "inject" else g)
+
+    def episode_key(self, cfg, ep, seed):
+        if "inject" not in cfg:
+            return None
+        import jax.numpy as jnp
+
+        return jnp.asarray([0, ep], dtype=jnp.uint32)
 
     # ---- policies ------------------------------------------------------------------------------
     @staticmethod
